@@ -216,13 +216,16 @@ where
 
             match stream.as_mut().poll_next(cx) {
                 // Received message from a client stream
-                Poll::Ready(Some((id, Ok(item)))) => {
-                    let mut payload = item.unwrap_message();
+                Poll::Ready(Some((id, Ok(Frame::Message(mut payload))))) => {
                     payload
                         .headers
                         .get_or_insert(HashMap::new())
                         .insert("cid".into(), format!("{id}"));
                     *buffered_req = Some(Frame::Message(payload));
+                }
+                // Requestors may only send messages once registered
+                Poll::Ready(Some((id, Ok(_)))) => {
+                    error!("Received unexpected frame type from requestor {id}")
                 }
                 // Encountered an error whilst receiving a message from an inner stream
                 Poll::Ready(Some((_, Err(e)))) => {
